@@ -427,6 +427,7 @@ def function_level(ctx, worlds):
         nontriv = o['ok'] and n_pairs >= 2 and ng >= 2 and ng > nd
         ctx.count(json.dumps([w['table'], w['query'], str(p), b, o.get('n_per')]), nontrivial=bool(nontriv))
         ctx.dist('function_outcome', outcome)
+        ctx.dist('function_table_density', w['density'] + ('/big' if w.get('big') else ''))
         ctx.dist('n_per_utility', o.get('n_per'))
         ctx.dist('pairs_of_parent', min(n_pairs, 10))
         ctx.dist('has_pair_short_of_target', short)
@@ -648,7 +649,7 @@ def run(ctx):
         'gene names are unique in the reference and in the query; the tree is a valid strict tree',
         'the tie order of np.argsort is not modelled: the chosen sequence is an input of the model',
     ]
-    nf = ctx.n(60, 1600)
+    nf = ctx.n(160, 1600)
     done = 0
     while done < nf:
         m = min(100, nf - done)
@@ -656,7 +657,7 @@ def run(ctx):
         function_level(ctx, worlds)
         cleanup(d)
         done += m
-    ns = ctx.n(20, 300)
+    ns = ctx.n(40, 300)
     done = 0
     while done < ns:
         m = min(50, ns - done)
